@@ -130,10 +130,11 @@ def check(case):
                 sig = 'radiation-integral:exact'
                 bent = [p for p in topo.pulses if p.kind != 'gnd' and
                         (p.pt - p.e0) @ (p.e1 - p.pt) < 0.99 * p.l0 * p.l1]
-                if len(topo.pulses) <= 3 and len(bent) == len(topo.pulses) and err <= 0.04:
-                    # every one of the (at most three) pulses sits on a bend: the first-order phase errors of the
-                    # two half segments of a pulse do not cancel as they do on straight wire
-                    sig += ':at-most-3-pulses-all-on-bends'
+                # is the deviation that of the documented moment-at-the-pulse-point rule itself (reference point
+                # sum vs reference exact integral of the same currents), the program agreeing with that rule?
+                rule_dev = max(np.abs(ref_p - ex_p).max(), np.abs(ref_q - ex_q).max()) / mx
+                if abs(err - rule_dev) <= 2e-4 and err <= 0.10:
+                    sig += ':deviation-of-the-point-rule-itself'
                 fails.append((sig, 'reported far field differs from the exact integral by %.3g of the maximum '
                               '(segments <= lambda/18, %d pulses, %d on bends)' % (err, len(topo.pulses), len(bent))))
     # (3) dBi vs V/m
@@ -167,12 +168,13 @@ def check(case):
     m.compute_far_field(A(*th), A(ph[0], 360.0, 2))
     g = np.array(m.far_field.gain)
     a, b = g[:, 0, :], g[:, 1, :]
-    msk = a > -200
-    if msk.any() and np.abs(a - b)[msk].max() > 1e-7:
+    # rounding of cos / sin(phi + 360) moves deep nulls by micro-dB: compare within 60 dB of the maximum
+    msk = (a > -200) & (a > gmax - 60)
+    if msk.any() and np.abs(a - b)[msk].max() > 1e-5:
         fails.append(('phi-plus-360', 'rows for phi and phi + 360 differ by %.3g dB' % np.abs(a - b)[msk].max()))
     # (6) zenith
     m.compute_far_field(A(0, 0, 1), A(ph[0], 37.0, 6))
     g = np.array(m.far_field.gain)[0, :, 2]
-    if g.max() > -200 and g.max() - g.min() > 1e-7:
+    if g.max() > max(-200, gmax - 60) and g.max() - g.min() > 1e-5:
         fails.append(('zenith-depends-on-phi', 'total gain at theta = 0 varies by %.3g dB with phi' % (g.max() - g.min())))
     return Result(fails=fails, nontrivial=nt, labels=sorted(set(labels)))
